@@ -16,35 +16,42 @@ import tgen
 
 PROP = "C10"
 LEVEL = "proof"
-GEN_UNITS = []
+GEN_UNITS = ["GenHosvd"]      # control-flow skeleton of hosvd's mode loop (tools/pyx2v_skel.py): Props/C10Gen.v is stated over it
 SHARD = 6
-COQ_TARGETS = ["Props/C10.vo", "Props/C10Loop.vo", "Props/C10W3b.vo", "Model/C10Check.vo", "Model/Harness.vo"]
-THEOREM_FILES = ["Props/C10.v", "Props/C10Loop.v", "Props/C10W3b.v"]
+COQ_TARGETS = ["Props/C10.vo", "Props/C10Loop.vo", "Props/C10W3b.vo", "Props/C10W4.vo", "Props/C10Gen.vo", "Proofs/W4SHosvd.vo", "Proofs/W4SHosvdR.vo", "Model/C10Check.vo", "Model/Harness.vo"]
+THEOREM_FILES = ["Props/C10.v", "Props/C10Loop.v", "Props/C10W3b.v", "Props/C10W4.v", "Props/C10Gen.v"]
 COQ_IMPORTS = ("From Coq Require Import List ZArith Bool QArith Qcanon.\n"
                "From PV Require Import Base.Index Np.Array Model.Sparse Model.Repr Model.Harness Model.C10Tucker Model.C10Check.\n")
 RULE = ("integer tensors <= 4x3x3 (1- to 4-way, singleton modes, low-rank + noise, full random, graded spectra with component weights "
         "2^(g*j)) times a power of two 2^sexp, sexp in {-40..40} and sexp with ||2^sexp X||^2 just above 2^-52 (entries down to 1e-12 / up to 1e12: every hosvd / tucker_als case also runs "
         "as a scaled copy; the returned core is de-scaled exactly by 2^-sexp before the exact recomputation, so every checked relation "
         "is the scale-free one), tolerances {1e-5, 1e-3, 1e-2, 0.05..0.9}, "
-        "narrow integer holders (uint8/int16/int32; values 0..255, 0..15 (no square wraps), multiples of 16 (squares 0 mod 256), 182..255 (squares negative in int16); "
+        "narrow integer / logical holders (uint8/int8/int16/int32/bool; values 0..255, 0..15 (no square wraps), multiples of 16 (squares 0 mod 256), 182..255 (squares negative in int16); "
         "the starting factors returned by tucker_als(init='nvecs') must span invariant subspaces of the mode Gram matrices of the data; hosvd_print = the same request at the "
         "default verbosity: printed ||X-T||/||X|| = recomputed, no warning, no crash, and the rank rule; the witnesses of the repaired finding C10-N02 (squares wrapping to 0 / negative in uint8 / int16) are fixed regression cases), "
         "rank vectors within the mode sizes (all given, all automatic, mixed given/automatic), sequential True/False, all/random mode "
         "orders, the caller's ranks array observed after the call, tucker_als with list/nvecs/random init, maxiters 0..4 (0 must be rejected: finding C10-N01), stoptol {0, 1e-4, 1e-2, 0.3}: the stop rule is evaluated in Coq "
         "(transliterated loop replaying the per-iteration fits = reported fits of the runs truncated at 1..k iterations, cross-checked with the lines printed by the run itself); "
+        "wave 4 variants of sampled cases: data held C-contiguous / as a non-contiguous view / in a tensor grown by out-of-bounds assignment, second call on the same object (data array must stay untouched), dimorder=None, scalar rank, init='eigs', init = hosvd factors, verbosity=10; holders int8 and bool (finding C10-N03); "
         "non-trivial = more than one cell per two modes and a truncation is possible; distinct = distinct (op,args)")
-CORRESPONDENCE_ONLY = ["eigen-decomposition (LAPACK eigh / ARPACK eigsh): certificate-checked oracle; the Ky-Fan optimality of the leading "
-                       "eigenvectors enters C10_hooi_monotone as the stated eigen-oracle contract",
-                       "the numeric oracles of the transliterated loops (Model/C10Loop.v: Gram/eigh/sort, leading block, ttm, nvecs, norms) and "
-                       "the loops' tie to pyttb (observed ranks, column counts, iters, per-iteration fit trace replayed through the loop model, printed lines; "
-                       "not translator-generated)",
+CORRESPONDENCE_ONLY = ["eigen-decomposition (LAPACK eigh / ARPACK eigsh): certificate-checked oracle (W orthogonal, G W = W diag(mu) on the Gram matrix of the "
+                       "tensor hosvd looks at) — exactly the hypotheses run_ok / emode_ok of C10_gen_hosvd_error_bound / C10_concrete_hosvd_eigen_bound; the Ky-Fan "
+                       "optimality of the leading eigenvectors enters C10_hooi_monotone as the stated eigen-oracle contract",
+                       "the numeric kernels of the GENERATED hosvd loop (Gen/GenHosvd.v: k_unfold, k_gram, k_eigh, k_argsort_desc, k_take, k_select_cols, k_shrink) "
+                       "are opaque: their contracts (run_ok, shrink_reads_k) are hypotheses of Props/C10Gen.v; hosvd's argument validation, normxsqr / eigsumthresh "
+                       "and the final core extraction lie outside the generated region (hand transliteration hosvd_run, tied by observations)",
+                       "the tucker_als loop model (Model/C10Loop.v tals_run: nvecs, project, core, norms as oracles) and its tie to pyttb (observed ranks, iters, "
+                       "per-iteration fit trace replayed through the loop model, printed lines; not translator-generated)",
                        "printed relative error of hosvd (default verbosity) against the exact recomputation"]
 ASSUMPTIONS = ["floats are converted to rationals after rounding to the 2^-40 grid (abs. error <= 5e-13, inside the 1e-9 tolerance)",
                "theorems are over exact real arithmetic (stdlib Reals axioms); IEEE rounding is not modelled",
                "scaled copies: data * 2^sexp is exact in binary floating point, the returned core is multiplied by 2^-sexp (exact) and "
                "compared with the relations of the unscaled integer data (all checked relations are homogeneous)",
                "C10_spectral_step / C10_hosvd_error_bound take the orthonormal eigenbasis as hypothesis (projectors Q_j resolving the "
-               "identity, lambda_j = ||Q_j y||^2); on the samples the LAPACK output is certificate-checked in Qc"]
+               "identity, lambda_j = ||Q_j y||^2); for concrete tensors this form is derived (Props/C10W4.v) from the matrix form W^T W = W W^T = I, "
+               "G W = W diag(mu), which stays a hypothesis; on the samples the LAPACK output is certificate-checked in Qc in exactly that form",
+               "Props/C10Gen.v: the kernels of the generated loop are arbitrary functions; `k_shrink Y factor_matrices k` is assumed to read only "
+               "factor_matrices[k] (the skeleton translator abstracts the index expression into the kernel)"]
 EXPLANATION = ("C10_rank_choice / C10_given_ranks / C10_ncols: theorems about the transliterated rank rule and slice of the repaired hosvd; "
                "C10_spectral_step: discarded eigenvalues = discarded projector energy; C10_hosvd_error_bound: rank rule per mode ==> relative "
                "error <= tol for both strategies and every mode order; C10_hooi_monotone / C10_hooi_fit_monotone: ||core|| and the fit never "
@@ -52,7 +59,11 @@ EXPLANATION = ("C10_rank_choice / C10_given_ranks / C10_ncols: theorems about th
                "the abstract space and projectors instantiated by dense real tensors and ttm with U U^T; Props/C10Loop.v: bookkeeping of the "
                "transliterated hosvd / tucker_als loops (validation, ranks, modes treated once, iteration count, fit trace, stop rule); Props/C10W3b.v: C10_tucker_full "
                "(the reconstruction recomputed by the correspondence = pyttb's ttm kernel over all modes = den_t), C10_stop_rule_check (soundness of the stop-rule check run on "
-               "every sampled tucker_als trace), C10_wrapped_normsq_le / C10_smaller_budget_safe (a squared norm formed in a wrapping integer type — the repaired finding C10-N02 — could not break the error bound); the correspondence recomputes every claimed "
+               "every sampled tucker_als trace), Props/C10W4.v: the spectral step, the error bound and the reconstruction for CONCRETE dense real tensors down to the "
+               "matrix eigen-equation G W = W diag(mu) (C10_concrete_spectral_step, C10_rayleigh, C10_energies_eigen, C10_recon_is_projection, C10_concrete_hosvd_eigen_bound; "
+               "sequential case on the shrunk tensors: C10_gram_isometry .. C10_concrete_hosvd_seq_bound); Props/C10Gen.v: the translator-GENERATED hosvd loop = the hand loop "
+               "model, its bookkeeping, and the error bound for what the generated loop returns (C10_gen_loop_is_hand_loop, C10_gen_hosvd_bookkeeping, C10_gen_hosvd_error_bound); "
+               "C10_wrapped_normsq_le / C10_smaller_budget_safe (a squared norm formed in a wrapping integer type — the repaired finding C10-N02 — could not break the error bound); the correspondence recomputes every claimed "
                "relation exactly in Qc on pyttb's returned factors and core.")
 
 GRID = 2 ** 40
@@ -159,7 +170,74 @@ def _scaled_copies(rng, base, big):
     return out
 
 
+def _variants(rng, base, big):
+    """wave 4 — input classes beside the plain F-contiguous float64 holder / fully spelled-out options, as extra copies of sampled cases:
+    layout   : the same values held C-contiguous or as a non-contiguous view (assigned to X.data: pyttb's own routes normalise to F order),
+               or in a tensor GROWN by out-of-bounds assignment (`G[0:I0, 0:I1, ...] = block` on a one-cell tensor: pyttb itself then holds a
+               C-contiguous array and a shape tuple of numpy integers)
+    history  : the same call a second time on the same tensor object (data must be untouched, answer as for a fresh object);
+               tucker_als started from hosvd's factors (init = hosvd(X, ranks=...).factor_matrices)
+    options  : dimorder=None (natural order), tucker_als rank given as ONE number, init='eigs' (alias of 'nvecs'), hosvd verbosity=10
+               (prints the reverse cumulative sums with the cut-off marker)"""
+    out = []
+    p = 0.7 if big else 0.5
+    HK = ["C", "grown", "strided", "twice", "dimorder_none", "verbose"]
+    TK = ["C", "grown", "strided", "twice", "dimorder_none", "rank_scalar", "eigs", "hosvd_init"]
+    nh = nt = 0                           # the kinds are taken in turn, so every class occurs in every run
+    for c in base:
+        a = c.args
+        if "dtype" in a or len(a["shape"]) < 2 or rng.random() > p:
+            continue
+        natural = list(range(len(a["shape"])))
+        if c.op in ("hosvd_auto", "hosvd_ranks", "hosvd_mixed", "hosvd_print"):
+            if HK[nh % len(HK)] == "verbose" and c.op != "hosvd_print":
+                nh += 1
+            kind = HK[nh % len(HK)]
+            nh += 1
+            if kind in ("C", "strided", "grown"):
+                out.append(Case(c.op, dict(a, layout=kind), c.nontrivial))
+            elif kind == "twice":
+                out.append(Case(c.op, dict(a, twice=True), c.nontrivial))
+            elif kind == "dimorder_none":
+                out.append(Case(c.op, dict(a, dimorder=natural, dimorder_none=True), c.nontrivial))
+            elif c.op == "hosvd_print":
+                out.append(Case(c.op, dict(a, verbosity=10), c.nontrivial))
+        elif c.op == "tucker_als" and a["maxiters"] > 0:
+            kind = TK[nt % len(TK)]
+            nt += 1
+            if kind in ("C", "strided", "grown"):
+                out.append(Case(c.op, dict(a, layout=kind), c.nontrivial))
+            elif kind == "twice":
+                out.append(Case(c.op, dict(a, twice=True), c.nontrivial))
+            elif kind == "dimorder_none":
+                out.append(Case(c.op, dict(a, dimorder=natural, dimorder_none=True), c.nontrivial))
+            elif kind == "rank_scalar":
+                r = rng.randint(1, min(a["shape"]))
+                init = a["init"] if isinstance(a["init"], str) else "random"
+                out.append(Case(c.op, dict(a, ranks=[r] * len(a["shape"]), rank_scalar=rng.choice(["int", "list1"]), init=init), c.nontrivial))
+            elif kind == "eigs":
+                out.append(Case(c.op, dict(a, init="eigs"), c.nontrivial))
+            else:
+                out.append(Case(c.op, dict(a, init="hosvd"), c.nontrivial))
+    return out
+
+
 STOPTOLS = [0.0, 0.0, 1e-4, 1e-2, 0.3]      # 0: never stops early; 0.3: stops in the first iterations
+
+
+def _narrow_data_for(rng, n, dt):
+    """values that fit the holder: int8 -128..127 (squares wrap beyond 11), bool 0/1 (a logical tensor, e.g. the result of a comparison)"""
+    if dt == "int8":
+        v = [rng.randint(-128, 127) for _ in range(n)] if rng.random() < 0.7 else [rng.randint(-11, 11) for _ in range(n)]
+        if not any(v):
+            v[0] = -100
+        return v
+    if dt == "bool":
+        v = [rng.randint(0, 1) for _ in range(n)]
+        if not any(v):
+            v[rng.randrange(n)] = 1
+        return v
+    return _narrow_data(rng, n)
 
 
 def _narrow_data(rng, n):
@@ -254,8 +332,8 @@ def gen_cases(rng, tier):
                                                  "init": rng.choice(["nvecs", "random"]), "stoptol": 1e-4}, nt))
             # narrow integer data holders (image-like values 0..255 in uint8 / int16 / int32): same values, same answers
             if d >= 2:
-                dt = rng.choice(["uint8", "uint8", "uint8", "int16", "int16", "int32"])
-                idata = _narrow_data(rng, math.prod(shp))
+                dt = rng.choice(["uint8", "uint8", "int8", "int8", "int16", "int16", "int32", "bool"])
+                idata = _narrow_data_for(rng, math.prod(shp), dt)
                 cases.append(Case("tucker_als", {"shape": list(shp), "data": idata, "ranks": [rng.randint(1, s) for s in shp],
                                                  "maxiters": rng.randint(1, 3), "dimorder": list(rng.choice(perms)), "init": "nvecs",
                                                  "stoptol": rng.choice([0.0, 0.0, 1e-2]), "dtype": dt}, nt))
@@ -283,7 +361,7 @@ def gen_cases(rng, tier):
             cases.append(Case("hosvd_auto", {"shape": list(shp), "data": _graded(rng, shp, rng.choice([3, 5, 8])),
                                              "tol": [tol.numerator, tol.denominator], "sequential": rng.random() < 0.5,
                                              "dimorder": list(rng.choice(perms))}, True))
-    return _scaled_copies(rng, cases, big)
+    return _scaled_copies(rng, cases, big) + _variants(rng, cases, big)
 
 
 # ---------------------------------------------------------------- running pyttb
@@ -323,8 +401,10 @@ def _certs(np, a, T):
 
 
 def run_impl(c):
+    import logging
     import numpy as np
     import pyttb as ttb
+    logging.getLogger().setLevel(logging.ERROR)      # pyttb logs a layout warning per elementwise operation on a non-F holder
     a = c.args
     k = int(a.get("sexp", 0))
     try:
@@ -332,13 +412,40 @@ def run_impl(c):
         Xref = None
         if "dtype" in a:                  # the same values held in a narrow integer dtype; float64 holder as reference
             Xref = X
-            X = ttb.tensor(np.array(a["data"], dtype=a["dtype"]).reshape(tuple(a["shape"]), order="F").copy(order="F"))
+            X = ttb.tensor(np.array(a["data"], dtype=a["dtype"]).reshape(tuple(a["shape"]), order="F").copy(order="F"))   # bool: 0/1 -> False/True
             if str(X.data.dtype) != a["dtype"]:
                 return {"exc": "HarnessError", "msg": f"tensor holds {X.data.dtype}, wanted {a['dtype']}"}
+        if a.get("layout") == "C":            # same values, C-contiguous buffer (assigned: pyttb's own routes normalise to F order)
+            X.data = np.ascontiguousarray(X.data)
+            if X.data.flags["F_CONTIGUOUS"] and X.data.ndim > 1 and min(X.data.shape) > 1:
+                return {"exc": "HarnessError", "msg": "holder is not C-ordered"}
+        elif a.get("layout") == "grown":      # pyttb's own route to a non-F holder: a one-cell tensor grown by out-of-bounds assignment
+            full = X.data.copy()
+            X = ttb.tensor(full[tuple(slice(0, 1) for _ in a["shape"])].copy(order="F"))
+            X[tuple(slice(0, n) for n in a["shape"])] = full
+            if tuple(int(n) for n in X.shape) != tuple(a["shape"]) or not np.array_equal(X.data, full):
+                return {"exc": "HarnessError", "msg": "growth by assignment did not produce the requested data"}
+        elif a.get("layout") == "strided":    # same values, every second slab of a twice as long array along the last mode
+            big_ = np.zeros(tuple(a["shape"][:-1]) + (2 * a["shape"][-1],), order="F")
+            big_[..., ::2] = X.data
+            big_[..., 1::2] = 777.0
+            X.data = big_[..., ::2]
+        dimorder = None if a.get("dimorder_none") else list(a["dimorder"])
+        before = X.data.copy()
+
+        def unchanged():
+            return X.data.shape == before.shape and bool(np.array_equal(X.data, before))
+
+        if a.get("twice") and c.op.startswith("hosvd"):      # first call on the same object; the observed call is the second one
+            with contextlib.redirect_stdout(io.StringIO()), warnings.catch_warnings():
+                warnings.simplefilter("ignore")
+                ttb.hosvd(X, a["tol"][0] / a["tol"][1] if "tol" in a else 0.5, verbosity=0, dimorder=dimorder, sequential=a["sequential"],
+                          ranks=(np.array(a["ranks"], dtype=int) if "ranks" in a else None))
         if c.op == "hosvd_auto":
             tol = a["tol"][0] / a["tol"][1]
-            T = ttb.hosvd(X, tol, verbosity=0, dimorder=list(a["dimorder"]), sequential=a["sequential"])
+            T = ttb.hosvd(X, tol, verbosity=0, dimorder=dimorder, sequential=a["sequential"])
             o = _obs_tt(np, T, k)
+            o["data_unchanged"] = unchanged()
             o["certs"], o["margin"] = _certs(np, a, T)
             # narrow integer holders: same values, same answer as the float64 holder (the squared norm is formed in double precision
             # since /repo 2956bb2, former finding C10-N02): structure, error bound AND the rank rule are compared
@@ -350,8 +457,14 @@ def run_impl(c):
             with warnings.catch_warnings(record=True) as wl:
                 warnings.simplefilter("always")
                 with contextlib.redirect_stdout(buf):
-                    T = ttb.hosvd(X, tol, dimorder=list(a["dimorder"]), sequential=a["sequential"])
+                    if "verbosity" in a:
+                        T = ttb.hosvd(X, tol, verbosity=a["verbosity"], dimorder=dimorder, sequential=a["sequential"])
+                    else:
+                        T = ttb.hosvd(X, tol, dimorder=dimorder, sequential=a["sequential"])
             o = _obs_tt(np, T, k)
+            o["data_unchanged"] = unchanged()
+            if a.get("verbosity", 1) > 5:       # one "<-- Cutoff" line per automatically chosen mode
+                o["cutoffs"] = buf.getvalue().count("<-- Cutoff")
             o["certs"], o["margin"] = _certs(np, a, T)
             o["warned"] = [str(w.message)[:80] for w in wl if "olerance" in str(w.message) or issubclass(w.category, RuntimeWarning)]
             lines = [ln for ln in buf.getvalue().splitlines() if "||X-T||/||X||" in ln]
@@ -365,8 +478,9 @@ def run_impl(c):
         if c.op in ("hosvd_ranks", "hosvd_mixed"):
             tol = a["tol"][0] / a["tol"][1] if "tol" in a else 0.5
             ranks = np.array([int(r) for r in a["ranks"]], dtype=int)      # the caller's own array (A-25: must stay as given)
-            T = ttb.hosvd(X, tol, verbosity=0, dimorder=list(a["dimorder"]), sequential=a["sequential"], ranks=ranks)
+            T = ttb.hosvd(X, tol, verbosity=0, dimorder=dimorder, sequential=a["sequential"], ranks=ranks)
             o = _obs_tt(np, T, k)
+            o["data_unchanged"] = unchanged()
             o["ranks_after"] = [int(r) for r in ranks]
             return o
         if c.op == "tucker_als" and a["maxiters"] == 0:
@@ -382,15 +496,27 @@ def run_impl(c):
                 return {"rejected": "ValueError", "msg": str(ex)[:200]}
             return {"exc": "none", "msg": "tucker_als(maxiters=0) returned a result without running a sweep"}
         if c.op == "tucker_als":
+            rank_arg = list(a["ranks"])
+            if a.get("rank_scalar") == "int":          # one number for all modes
+                rank_arg = int(a["ranks"][0])
+            elif a.get("rank_scalar") == "list1":
+                rank_arg = [int(a["ranks"][0])]
+            hinit = None
+            if a["init"] == "hosvd":                   # history: start from hosvd's factors of the same data and ranks
+                hinit = [np.array(U) for U in ttb.hosvd(X, 0.5, verbosity=0, ranks=np.array(a["ranks"], dtype=int)).factor_matrices]
+            Xrun = X if (a.get("twice") or "layout" in a) else None      # these classes run on the holder itself, the others on copies
+
             def one_run(mi, stoptol):
                 init = a["init"]
                 if isinstance(init, list):
                     init = [np.array(m, dtype=float).reshape((a["shape"][n], a["ranks"][n])) for n, m in enumerate(init)]
+                elif init == "hosvd":
+                    init = [U.copy() for U in hinit]
                 np.random.seed(12345)
                 buf = io.StringIO()
                 with contextlib.redirect_stdout(buf):
-                    M, M0, out = ttb.tucker_als(X.copy(), list(a["ranks"]), stoptol=stoptol, maxiters=mi,
-                                                dimorder=list(a["dimorder"]), init=init, printitn=1)
+                    M, M0, out = ttb.tucker_als(Xrun if Xrun is not None else X.copy(), rank_arg, stoptol=stoptol, maxiters=mi,
+                                                dimorder=dimorder, init=init, printitn=1)
                 # the printed per-iteration lines of the run: " Iter k: fit = %e fitdelta = %7.1e"
                 pl = re.findall(r"^ Iter\s+(\d+): fit = (\S+) fitdelta = (\S+)", buf.getvalue(), re.M)
                 return M, M0, out, [int(x[0]) for x in pl], [Fraction(x[1]) for x in pl]
@@ -403,7 +529,8 @@ def run_impl(c):
             # the run under test
             M, M0, out, piters, pt = one_run(a["maxiters"], a["stoptol"])
             res = _obs_tt(np, M, k)
-            if a["init"] == "nvecs":          # the returned starting guess (None for the first mode of dimorder)
+            res["data_unchanged"] = unchanged()
+            if a["init"] in ("nvecs", "eigs"):          # the returned starting guess (None for the first mode of dimorder)
                 res["init_f"] = [None if U0 is None else [[rq(x) for x in row] for row in np.asarray(U0)] for U0 in M0]
             res["fit"] = rq(out["fit"])
             res["iters"] = it = int(out["iters"])
@@ -430,7 +557,11 @@ def run_impl(c):
 
 
 # ---------------------------------------------------------------- known findings
-TRIGGERS = {"tals_maxiters_zero": lambda c: c.op == "tucker_als" and c.args.get("maxiters") == 0}
+TRIGGERS = {"tals_maxiters_zero": lambda c: c.op == "tucker_als" and c.args.get("maxiters") == 0,
+            # C10-N03: a logical (bool) dense tensor has no matricisation — exactly: the data holder has dtype bool AND the request
+            # matricises the DATA itself: every hosvd call, tucker_als only when it computes its starting guess with tensor.nvecs
+            "hosvd_bool_holder": lambda c: c.args.get("dtype") == "bool" and (c.op.startswith("hosvd") or
+                                           (c.op == "tucker_als" and c.args.get("init") in ("nvecs", "eigs") and c.args.get("maxiters", 1) > 0))}
 
 
 def _wit_n01():
@@ -447,7 +578,18 @@ def _wit_n01():
     return "tucker_als(X, [1,2,2], maxiters=0) returned a result without running a sweep"
 
 
-WITNESSES = {"C10-N01": _wit_n01}
+def _wit_n03():
+    import numpy as np
+    import pyttb as ttb
+    X = ttb.tensor(np.array([[1, 0, 1], [1, 1, 0]], dtype=bool))
+    try:
+        T = ttb.hosvd(X, 0.5, verbosity=0)
+    except Exception as ex:
+        return f"hosvd(bool [[1,0,1],[1,1,0]], tol=0.5) raised {type(ex).__name__}: {ex}"
+    return None if T.core.shape == (2, 2) else f"hosvd(bool [[1,0,1],[1,1,0]], tol=0.5) keeps core {T.core.shape}, the float64 holder (2, 2)"
+
+
+WITNESSES = {"C10-N01": _wit_n01, "C10-N03": _wit_n03}
 
 
 # ---------------------------------------------------------------- Coq side
@@ -494,6 +636,10 @@ def coq_check(c, o):
         return "false"
     if "rejected" in o:
         return "true" if (c.op == "tucker_als" and a["maxiters"] == 0) else "false"
+    if o.get("data_unchanged") is False:        # the data holder was written to
+        return "false"
+    if "cutoffs" in o and o["cutoffs"] != len(a["shape"]):
+        return "false"
     X, T = _gX(a), _gT(o)
     if c.op == "hosvd_auto":
         tol = Fraction(a["tol"][0], a["tol"][1])
@@ -580,6 +726,10 @@ def oracle(c, o):
         return f"admissible request raised {o['exc']}: {o.get('msg')}"
     if "rejected" in o:
         return None if (c.op == "tucker_als" and a["maxiters"] == 0) else f"admissible request rejected: {o.get('msg')}"
+    if o.get("data_unchanged") is False:
+        return "the call changed the caller's data array"
+    if "cutoffs" in o and o["cutoffs"] != len(a["shape"]):
+        return f"verbosity {a.get('verbosity')}: {o['cutoffs']} '<-- Cutoff' lines printed for {len(a['shape'])} automatically chosen modes"
     shp = a["shape"]
     X = [float(x) for x in a["data"]]
     Us = [[[float(x) for x in row] for row in U] for U in o["factors"]]
